@@ -30,19 +30,19 @@ func (C18) Plan(tier string) core.Plan {
 
 func (C18) Info() core.Info {
 	return core.Info{
-		Rule: "random weighted digraphs (1-12 vertices; int, string and hash-code vertices; weights 0-20 with zero/tie-heavy modes; cycles, self-loops, unreachable parts), searched from up to 3 sources on the graph or its reversed view, each under several seeded map-iteration schedules (canonical, reverse, rotate, uniform, mixed, adversarial single site); compared with Floyd-Warshall. A (graph,source,schedule) triple is non-trivial when the source reaches >=2 other vertices; distinct = distinct (graph shape, event-log hash) pairs",
+		Rule: "random weighted digraphs (1-12 vertices; int, string and hash-code vertices; weights 0-20 with zero/tie-heavy modes, now and then legal but very large weights (2^28..2^29 on graphs of <= 4 vertices, so path sums stay below 2^31); some hash-code vertices are of a non-comparable Go type (a slice); cycles, self-loops, unreachable parts), searched from up to 3 sources on the graph or its reversed view, each under several seeded map-iteration schedules (canonical, reverse, rotate, uniform, mixed, adversarial single site); compared with Floyd-Warshall. A (graph,source,schedule) triple is non-trivial when the source reaches >=2 other vertices; distinct = distinct (graph shape, event-log hash) pairs",
 		Assumptions: []string{
 			"weights are non-negative and small enough not to overflow int32 (as the statement requires non-negative weights)",
 			"the woven copy behaves as the shipped code: checked by running the repository's own tests on the woven copy in every check",
 		},
-		Probes:    []string{"c18_reachable_checked", "c18_unreachable_checked", "c18_tie_graphs", "c18_reversed", "s1_nonidentity_perms"},
+		Probes:    []string{"c18_reachable_checked", "c18_unreachable_checked", "c18_tie_graphs", "c18_reversed", "c18_huge_weights", "c18_slice_vertices", "s1_nonidentity_perms"},
 		Real:      []string{"internal/graph (woven copy): Graph.Add/AddEdgeWeighted/Reverse/Dijkstra/EdgeToPath, container/heap"},
 		Simulated: []string{"map iteration order at every range site (S1)", "step budget for path reconstruction (S4)"},
 	}
 }
 
 func (C18) Gen(r *simrt.RNG, tier string) core.Case {
-	c := C18Case{Graph: genGraph(r, 12, false, 20), Reverse: r.Chance(1, 2)}
+	c := C18Case{Graph: genGraph(r, 12, false, 20, true), Reverse: r.Chance(1, 2)}
 	ns := 1 + r.Intn(3)
 	for i := 0; i < ns; i++ {
 		c.Sources = append(c.Sources, r.Intn(c.Graph.N))
@@ -129,6 +129,18 @@ func (C18) Run(c core.Case, ctx *core.Ctx) []core.Violation {
 		}
 		if ties {
 			ctx.St.Inc("c18_tie_graphs")
+		}
+		for _, e := range spec.Edges {
+			if e[2] >= 1<<26 {
+				ctx.St.Inc("c18_huge_weights")
+				break
+			}
+		}
+		for _, kd := range spec.Kinds {
+			if kd == 3 {
+				ctx.St.Inc("c18_slice_vertices")
+				break
+			}
 		}
 		for _, src := range cc.Sources {
 			sim.ResetOp()
